@@ -50,8 +50,10 @@ impl ThickSegment {
     pub fn edges_bounding_box(&self) -> Rectangle {
         let (right, left) = self.edges();
 
+        // A skeleton is drawn using the right edge, see `intersection`. The left edge can be a
+        // different line if only the start of the segment is collapsed into a single point.
         if self.is_skeleton() {
-            return left.bounding_box();
+            return right.bounding_box();
         }
 
         Rectangle::with_corners(
